@@ -907,6 +907,7 @@ func init() {
 		"values: boundary-biased (every varint group edge, width limits, -0/NaN/denormals, strings around the 1/2/3-byte length prefixes, nil/empty/zero-keyed containers, zoned and monotonic times, null.* presence, JSON-any trees); four Plenc configurations. " +
 		"Every third value also goes through a long-lived instance per configuration that has built the codecs of all earlier cases; between the values of a case, damaged encodings (cut, bit flipped, continuation bit set) of the previous value are decoded on both instances, whatever they return. " +
 		"Every seventh struct type is padded to encodings of every size from b-12 to b+1 for b = 128, 16384 (thorough: also 2^21) and nested as field, pointer target, slice element, map value and proto map value of a struct inside an outer struct. Every 509th case round-trips a container with 70 001 - 1 200 017 entries (strings, structs, pointers, byte slices, times, nested slices, map entries; plain and proto-tagged). Descriptor() of the type is asked for between the calls of a case. Every 37th case (C01) registers a codec for a type the instance has already used at top level and round-trips through it; in a fifth of the cases one comparison comes after a garbage collection and 40 000 small allocations. " +
+		"Every 16th case is a struct with a field at every index of a window of 24 consecutive indexes (windows in turn from 0 upwards: 0..11999 in the quick tier, up to the 100000 of known finding D29 in the thorough one), with a low and a far field beside it. Every 13th case runs on an instance whose time.Time codec is the BigQuery timestamp codec (element codec of []time.Time, value codec of maps). The intern option also sits on slices and maps. " +
 		"A case is non-trivial when its value has a non-zero scalar, non-empty container or non-nil pointer; distinct = distinct (type, configuration, value-shape class) hashes."
 	core.Register(&core.Prop{
 		ID:        "C01",
